@@ -8,14 +8,30 @@ use beff_core::subtyping::bdd::{Atom, Bdd, BddOps};
 use serde_json::{Value, json};
 
 mod bddj;
+mod compile;
+mod subj;
 mod semj;
 
+thread_local! {
+    static LAST_PANIC: std::cell::RefCell<String> = std::cell::RefCell::new(String::new());
+}
+pub fn last_panic() -> String {
+    LAST_PANIC.with(|p| p.borrow().clone())
+}
+
 fn main() {
+    std::panic::set_hook(Box::new(|info| {
+        let loc = info.location().map(|l| format!("{}:{}", l.file(), l.line())).unwrap_or_default();
+        let msg = if let Some(s) = info.payload().downcast_ref::<&str>() { s.to_string() } else if let Some(s) = info.payload().downcast_ref::<String>() { s.clone() } else { "?".to_string() };
+        LAST_PANIC.with(|p| *p.borrow_mut() = format!("{} @ {}", msg, loc));
+    }));
     let args: Vec<String> = std::env::args().collect();
     let cmd = args.get(1).map(|s| s.as_str()).unwrap_or("");
     let mut input = String::new();
     std::io::stdin().read_to_string(&mut input).expect("stdin");
     let out = match cmd {
+        "compile" => compile::compile(&serde_json::from_str(&input).expect("json")),
+        "subtype" => subj::subtype(&serde_json::from_str(&input).expect("json")),
         "bddop" => bddj::bddop(&serde_json::from_str(&input).expect("json")),
         "properop" => semj::properop(&serde_json::from_str(&input).expect("json")),
         "semop" => semj::semop(&serde_json::from_str(&input).expect("json")),
